@@ -5,6 +5,7 @@ package main
 
 import (
 	"errors"
+	"fmt"
 	"reflect"
 
 	"github.com/aldas/go-modbus-client/packet"
@@ -191,14 +192,34 @@ func outReq(r packet.Request, err error) V {
 		return outErr(r, err)
 	}
 	scribble()
+	looked(r)
 	tid, p := projReq(r)
 	return vOk(I(tid), p, B(r.Bytes()))
+}
+
+// looked: every third value is printed (the way a caller logs it) before it is used: formatting a
+// request, a response or an error is a diagnostic and must not change what it encodes to or answers
+var lookCount int
+
+func looked(x interface{}) {
+	lookCount++
+	if lookCount%3 != 0 || x == nil {
+		return
+	}
+	func() {
+		defer func() { _ = recover() }() // a panicking String method shows up in the value's later use or not at all
+		_ = fmt.Sprintf("%v|%+v|%s", x, x, x)
+		if rv := reflect.ValueOf(x); rv.Kind() == reflect.Ptr && !rv.IsNil() {
+			_ = fmt.Sprint(rv.Elem().Interface())
+		}
+	}()
 }
 
 func outResp(r packet.Response, err error) V {
 	if err != nil {
 		return outErr(r, err)
 	}
+	looked(r)
 	tid, p, re := projResp(r)
 	if re {
 		return vOk(I(tid), p, B(r.Bytes()))
